@@ -48,13 +48,49 @@ fn gen_history(suite: &str, r: &mut Rng) -> Vec<Tree> {
     }
 }
 
-fn run_history(suite: &str, ops: &[Tree]) -> RunResult {
+fn run_history_here(suite: &str, ops: &[Tree]) -> RunResult {
     match suite {
         "r-codec" | "r-pair" | "r-hostile" | "r-server" => rhist::run_history(ops),
         "n-codec" | "n-replay" | "n-world" => nhist::run_history(ops),
         "t-udp" => thist::run_history(ops),
         _ => panic!("unknown suite {}", suite),
     }
+}
+
+/// seconds one history may take before it counts as a call that does not return
+const HANG_LIMIT_S: u64 = 45;
+
+/// Runs a history on a thread of its own; a call into the library that does not come back within the limit (a loop over
+/// a peer-chosen range, say) is reported as a violation instead of stalling the whole check. The stuck thread is left
+/// behind; the process ends when the run is over.
+fn run_history(suite: &str, ops: &[Tree]) -> RunResult {
+    let (tx, rx) = std::sync::mpsc::channel();
+    let (s2, o2) = (suite.to_string(), ops.to_vec());
+    std::thread::spawn(move || {
+        let r = run_history_here(&s2, &o2);
+        let _ = tx.send(r);
+    });
+    match rx.recv_timeout(std::time::Duration::from_secs(HANG_LIMIT_S)) {
+        Ok(r) => r,
+        Err(_) => {
+            let prop: &'static str = match suite {
+                "t-udp" => "C20",
+                x if x.starts_with("n-") => "C07",
+                _ => "C06",
+            };
+            let mut r = RunResult::default();
+            r.violations.push(Violation { prop, step: 0, msg: format!("HANG: an operation of this history did not return within {} s (the history is given unshrunk)", HANG_LIMIT_S) });
+            if prop == "C06" {
+                // a server stuck in one client's packet serves nobody else
+                r.violations.push(Violation { prop: "C11", step: 0, msg: format!("HANG: an operation of this history did not return within {} s: one peer's packet stalls the whole endpoint (the history is given unshrunk)", HANG_LIMIT_S) });
+            }
+            r
+        }
+    }
+}
+
+fn is_hang(res: &RunResult) -> bool {
+    res.violations.iter().any(|v| v.msg.starts_with("HANG"))
 }
 
 fn run_driver(driver: &Path, lines: &[String], scratch: &Path, tag: &str) -> Vec<String> {
@@ -342,6 +378,15 @@ fn cmd_run(args: &Args, driver: &Path) {
             // limit the work spent on a flood of failures
             if mismatches.len() + violations.len() >= 12 {
                 break;
+            }
+            if is_hang(res) {
+                // re-running it would stall again: the history goes out as it is
+                if let Failure::Monitor(prop) = &f {
+                    let msg = res.violations.iter().find(|v| v.prop == *prop).map(|v: &Violation| v.msg.clone()).unwrap_or_default();
+                    let p = write_replay(&replay_dir, &suite, prop, seed, index, &format!("monitor {} failed on the implementation (history {})", prop, name), ops, res, &[]);
+                    violations.push((prop.to_string(), msg, p.to_string_lossy().into_owned()));
+                }
+                continue;
             }
             let small = shrink(&suite, ops, &f, driver, &out);
             let (_, sres, smodel) = failures(&suite, &small, driver, &out, "final");
